@@ -21,20 +21,7 @@ from harness import symlin as SL
 
 
 def install():
-    GE.install_atoms()
-    base = SL.atom
-
-    def atom3(a):
-        k = a[0]
-        if k == "prod":
-            return atom3(a[1]) * atom3(a[2])
-        if k == "isqrt":
-            return 1.0 / math.sqrt(SL.frac(a[1]))
-        return base(a)
-    if getattr(SL, "_prod_installed", False):
-        return
-    SL.atom = atom3
-    SL._prod_installed = True
+    return
 
 
 def values_part(ck, tier):
